@@ -6264,6 +6264,11 @@ func (e *Emitter) emitAs(fn *ir.Function, as ir.ExprAs) (int, error) {
 	if vec, ok := srcInner.(ir.VectorType); ok {
 		return e.emitVectorCast(fn, as.Expr, vec, srcScalar, dstScalar, as.Convert == nil)
 	}
+	// A matrix (mat2x4h(m), mat3x3f(m)) is cast component by component too:
+	// casting only the first scalar left the other components untracked.
+	if mat, ok := srcInner.(ir.MatrixType); ok {
+		return e.emitComponentCast(as.Expr, int(mat.Columns)*int(mat.Rows), srcScalar, dstScalar, as.Convert == nil)
+	}
 
 	// Scalar cast.
 	return e.emitScalarCast(src, srcScalar, dstScalar, as.Convert == nil)
@@ -6323,7 +6328,11 @@ func (e *Emitter) emitScalarCast(src int, srcScalar, dstScalar ir.ScalarType, is
 
 // emitVectorCast emits per-component casts for a vector expression.
 func (e *Emitter) emitVectorCast(_ *ir.Function, handle ir.ExpressionHandle, vec ir.VectorType, srcScalar, dstScalar ir.ScalarType, isBitcast bool) (int, error) {
-	size := int(vec.Size)
+	return e.emitComponentCast(handle, int(vec.Size), srcScalar, dstScalar, isBitcast)
+}
+
+// emitComponentCast casts the first size scalar components of an expression.
+func (e *Emitter) emitComponentCast(handle ir.ExpressionHandle, size int, srcScalar, dstScalar ir.ScalarType, isBitcast bool) (int, error) {
 	componentIDs := make([]int, size)
 
 	for i := range size {
